@@ -126,3 +126,42 @@ Theorem C09_hypotheses_satisfiable :
     (forall s, length s = length A -> 0 < p s) /\ nin A = 1%nat /\ nout A = 1%nat.
 Proof. exact swap_hypotheses_satisfiable. Qed.
 Print Assumptions C09_hypotheses_satisfiable.
+
+(* ---------------------------------------------------------------------------------------------
+   Links to C02 (QTheory.Rho; proofs: QTheory.Links, module L2).  Under C02's shape guards and its
+   non-singularity guard ([Rho.pi_guard] on every pair of basis states of the size considered), the
+   density matrix of the model IS of the Gram form of C09_renyi_nonneg: it is the reduced state of the
+   purified two-network state [purified am ph n] (C02's Psi, read on n + na sites, the na auxiliary
+   units being traced out).  Hence Renyi-2 >= 0 for the model's mixed state, tr(rho_A^2) <= (tr rho)^2
+   with tr rho = dm_normalization, and this purity is what the SWAP estimator averages to. *)
+From QTheory Require Rho Links.
+
+Theorem C09_density_matrix_is_gram : forall (am ph : prbm),
+  length (pU am) = length (pd am) -> length (pU ph) = length (pU am) ->
+  forall n s t, length s = n -> length t = n ->
+  Forall Rho.pi_guard (pi_args ROps am ph s t) ->
+  dm_rho ROps am ph s t = gram (length (pd am)) (Links.L2.purified am ph n) s t.
+Proof. exact Links.L2.density_matrix_is_gram. Qed.
+Print Assumptions C09_density_matrix_is_gram.
+
+Theorem C09_renyi_nonneg_density_matrix : forall (am ph : prbm),
+  length (pU am) = length (pd am) -> length (pU ph) = length (pU am) ->
+  forall A : list bool,
+  (forall v vp, length v = length A -> length vp = length A -> Forall Rho.pi_guard (pi_args ROps am ph v vp)) ->
+  let Z := dm_normalization ROps am (all_bits (length A)) in
+  let p := fun s => dm_probability ROps am s 1 in
+  let rho := dm_rho ROps am ph in
+  sum_bits (length A) (fun s1 => sum_bits (length A) (fun s2 =>
+    p s1 * p s2 * swap_value ROps (mixed_state ROps rho p) A s1 s2)) = fst (purity A rho) /\
+  fst (purity A rho) <= Z * Z /\ 0 < Z.
+Proof. exact Links.L2.renyi_nonneg_density_matrix. Qed.
+Print Assumptions C09_renyi_nonneg_density_matrix.
+
+(* non-vacuity: C02's example network (every bias non-zero, U_mu <> 0) meets all three guards *)
+Theorem C09_density_matrix_guards_satisfiable :
+  let am := mkP [[1]] [[1]] [0.3] [-0.2] [0.5] in
+  let ph := mkP [[0.7]] [[2]] [0.1] [0.4] [0] in
+  length (pU am) = length (pd am) /\ length (pU ph) = length (pU am) /\
+  forall v vp, length v = length [true] -> length vp = length [true] -> Forall Rho.pi_guard (pi_args ROps am ph v vp).
+Proof. exact Links.L2.density_matrix_hyps_satisfiable. Qed.
+Print Assumptions C09_density_matrix_guards_satisfiable.
